@@ -29,7 +29,7 @@ theorem scan_sound_every_chain {V : Type} (L : OpSem V) (red : Op → Except PyE
     ∀ fuel ops index res s t, L.toSem.WT ops s t →
       scan (reductionCfg red) fuel ops index = .ok (some res) →
       L.toSem.WT res s t ∧ ∀ x, L.mem s x → L.toSem.app res x = L.toSem.app ops x :=
-  scan_sound L.toSem (reductionCfg red) hr L.homothetyRule_sound
+  scan_sound L.toSem (reductionCfg red) (L.cfg_rules_sound red hr) L.homothetyRule_sound
 
 /-- **`AlgebraicReductionRule.apply` is sound**: identity removal, scalar merging/relocation (any number
 of scalar factors, on whichever side the code chooses), the scan, and the "empty chain becomes an
